@@ -26,7 +26,8 @@ PROPS = {
           "batch texts: rapid builds canonical FAT-2 batch JSON (1-4 transactions, all tickers, amounts incl. 0, 2^63-1, 2^63, 2^64-1; one transfer in eight has outputs that add up to the input only modulo 2^64) and applies 0-2 "
           "grammar-level mutations (duplicate/unknown/case-changed key at any depth, whitespace, number spellings, both/neither of transfers+conversion, "
           "second input address, bad/lower-case/double-quoted ticker, null values, trailing data, reordering, metadata, out-of-range numbers, bit flips); "
-          "oracle: accepted by pegnetd's UnmarshalJSON+ValidData+int64 bound => accepted by an independent token-level strict acceptor (key case is a labelled "
+          "oracle: accepted by pegnetd's UnmarshalJSON+ValidData+int64 bound => accepted by an independent token-level strict acceptor; the same text offered to the real entry constructor "
+          "fat2.NewTransactionBatch as an entry properly signed by its input address's key must not be accepted when the decoder path rejects it (key case is a labelled "
           "don't-care) with the same decoded transactions, and re-encoding decodes to the same transactions; unmutated canonical texts must be accepted. "
           "amounts: decimal strings (0-25 integer digits incl. values around 2^63/1e8, 2^64/1e8, 2^63, 2^64; 0-12 fraction digits; leading zeros; junk characters); "
           "oracle: nil error => result == value*1e8 exactly (math/big), canonical in-range strings with <=8 decimals are accepted. "
